@@ -58,6 +58,9 @@ ALIAS_UNPROVED_ARGS = {
 
 # Public methods for which `safe_method` is not established although no defect exists.
 ALIAS_METHOD_UNPROVED = {
+    'abel.tools.analytical.SampleImage.transform':
+        'documented: returns the array it has just computed and stored, "also accessible as the abel attribute"; '
+        'every call recomputes and replaces it (the dynamic reused-object clauses hold)',
     'abel.tools.polynomial.ApproxGaussian.scaled':
         'the tuples of self.ranges are unpacked into numbers (r, s) that the translator cannot tell from arrays: '
         '`s *= sigma` rebinds a float, the returned list holds new lists and floats',
